@@ -11,7 +11,7 @@ SPEC = make("C03", "Properties.C03", ['C03_no_overrun', 'C03_window_respected', 
             "theorems are proved; and two writers sharing one stream (legal: poll_write_push takes &self) racing for credit "
             "with each other, an acknowledge and a close on loom threads (programs Wa|Wb, Wa|Wb|K, Wa|Wb|D, credit 0..2): "
             "the set of final outcomes over every C11 execution must equal the set computed by Atomic/TwoWriters.v, and every "
-            "outcome must conserve credit.", "DESIGN.md §4 C03", flow=True)
+            "outcome must conserve credit.", "DESIGN.md §5 C03", flow=True)
 
 _base = type(SPEC)
 
